@@ -566,6 +566,23 @@ func judgeC19FS(c c19Case) (v core.Verdict) {
 			return
 		}
 	}
+	// the caller goes on using the slice it built the stack from (exactly full: len == cap): overwriting, reversing
+	// or truncating it afterwards is the caller's business and changes nothing for the stack
+	{
+		own := make([]jet.Loader, len(loaders))
+		copy(own, loaders)
+		kept := multi.NewLoader(own...)
+		for i := range own {
+			own[i] = foreign
+		}
+		if len(own) > 1 {
+			own[0], own[len(own)-1] = loaders[len(loaders)-1], loaders[0]
+		}
+		v.Label("callers-slice-rewritten-after-construction")
+		if !check("multi whose caller overwrote the (exactly full) slice it was built from", kept, models) {
+			return
+		}
+	}
 	// a multi stacked inside a multi: the outer one answers from whatever the inner one holds at the time of the question
 	inner := multi.NewLoader(loaders[:1]...)
 	outer := multi.NewLoader(inner)
@@ -615,7 +632,7 @@ func judgeC19FS(c c19Case) (v core.Verdict) {
 
 func TestC19(t *testing.T) {
 	core.Run(t, "C19",
-		"(a) InMemLoader histories of Set/Delete/Exists/Open (run under a deadlock watchdog) under generated spellings (./ ../ // trailing slash, with and without leading slash) against a map keyed by an independent normaliser; (b) OS/http/embed loaders over generated trees (embed: a fixed tree below testdata/ and a package that embeds its own directory, root '.', with dot files and a dot directory at the top level) queried with every clean absolute path of the universe (files, directories, missing siblings, paths below files, root); (c) multi stacks of 1-4 such loaders with overlapping contents and AddLoaders mid-history, sibling stacks built from one slice with spare capacity, plus two in-memory layers between which a path moves after Exists has answered and before Open is asked; non-trivial = a query spelt differently from the spelling used to store, or naming a directory, or answered by a later loader of a stack",
+		"(a) InMemLoader histories of Set/Delete/Exists/Open (run under a deadlock watchdog) under generated spellings (./ ../ // trailing slash, with and without leading slash) against a map keyed by an independent normaliser; (b) OS/http/embed loaders over generated trees (embed: a fixed tree below testdata/ and a package that embeds its own directory, root '.', with dot files and a dot directory at the top level) queried with every clean absolute path of the universe (files, directories, missing siblings, paths below files, root); (c) multi stacks of 1-4 such loaders with overlapping contents and AddLoaders mid-history, sibling stacks built from one slice with spare capacity, a stack whose caller overwrites the exactly-full slice it was built from, plus two in-memory layers between which a path moves after Exists has answered and before Open is asked; non-trivial = a query spelt differently from the spelling used to store, or naming a directory, or answered by a later loader of a stack",
 		genC19, judgeC19)
 }
 
